@@ -32,6 +32,25 @@ def run(chk):
     chk.rule("O2", "every such path invalidates the environments of the written sites first; memo keys are all cleared", floor=12)
     chk.rule("O3", "the energy reported is env.measure() taken after the sweep of the same iteration on the same psi", floor=4)
     chk.rule("O4", "DMRG normalises at every split, ends each sweep at the first site and canonises its input", floor=4)
+    chk.rule("O5", "effective operators are linear in their input and sesquilinear in (bra, ket): bra tensors enter conjugated, "
+             "ket/op/input un-conjugated; penalty terms are p|X><X|", floor=40)
+    chk.rule("O6", "Krylov eigen-solver returns combinations of the orthonormal basis started from v0/|v0|", floor=2)
+    ENVM = "yastn.tn.mps._env"
+    nct = 0
+    for ci in prog.module(ENVM).classes.values():
+        for name, f in ci.methods.items():
+            if f.cls is not ci:
+                continue
+            if name in ("Heff0", "Heff1", "Heff2"):
+                nct += e7.check_conj_typing(chk, "O5", f, f.params[1:2])
+            elif name in ("update_env_to_first", "update_env_to_last", "hole", "update_env_", "update_env_op_", "project_ket_on_bra_1",
+                          "project_ket_on_bra_2", "get_FL", "get_FR"):
+                nct += e7.check_conj_typing(chk, "O5", f, [p for p in f.params[1:2] if p.startswith("vec")])
+    chk.require(nct >= 40, f"conjugation typing: only {nct} typed contraction operands (more than 40 confirmed by hand)")
+    pj = prog.cls(ENVM, "Env_project")
+    for name in ("Heff1", "Heff2"):
+        e7.check_projector_form(chk, "O5", pj.methods[name], pj.methods[name].params[1])
+    e7.check_krylov_combination(chk, "O6", prog.func("yastn.krylov._krylov", "eigs"))
     paths = 0
     for mod, name in ((DMRG, "_dmrg_sweep_1site_"), (DMRG, "_dmrg_sweep_2site_"),
                       (COMP, "_compression_1site_sweep_"), (COMP, "_compression_2site_sweep_")):
@@ -99,6 +118,9 @@ def run(chk):
 
 
 MUTANTS = [
+    ("penalty conjugates the input", "yastn/tn/mps/_env.py", "        return  tmp * (self.penalty * vdot(tmp, A))", "        return  tmp * (self.penalty * vdot(A, tmp))", "O5"),
+    ("bra not conjugated", "yastn/tn/mps/_env.py", "        tmp = vecL @ self.bra.A[n].conj()\n        tmp = tensordot(self.op.A[n], tmp, axes=((0, 1), (1, 3)))", "        tmp = vecL @ self.bra.A[n]\n        tmp = tensordot(self.op.A[n], tmp, axes=((0, 1), (1, 3)))", "O5"),
+    ("Ritz vector from unnormalised v0", "yastn/krylov/_krylov.py", "        Y.append(V[0].add(*V[1:], amplitudes=sit, **kwargs))", "        Y.append(v0.add(*V[1:], amplitudes=sit, **kwargs))", "O6"),
     ("delete clear_site_", "yastn/tn/mps/_dmrg.py", "            env.clear_site_(n)\n            env.update_env_(n, to=to)", "            env.update_env_(n, to=to)", "O2"),
     ("update before orthogonalize", "yastn/tn/mps/_dmrg.py",
      "            psi.post_1site_(A, n)\n            psi.orthogonalize_site_(n, to=to, normalize=True)",
@@ -112,6 +134,7 @@ MUTANTS = [
     ("clear only one site", "yastn/tn/mps/_compression.py", "            env.clear_site_(n, n + 1)\n            env.update_env_(n + dn, to=to)", "            env.clear_site_(n)\n            env.update_env_(n + dn, to=to)", "O2"),
 ]
 BENIGN = [
+    ("penalty with explicit conj flags", "yastn/tn/mps/_env.py", "        return tmp * (self.penalty * vdot(tmp, AA))", "        return tmp * (self.penalty * vdot(AA, tmp, conj=(0, 1)))"),
     ("reorder independent bookkeeping", "yastn/tn/mps/_dmrg.py",
      "            psi.absorb_central_(to=to)\n            env.clear_site_(n)\n            env.update_env_(n, to=to)",
      "            env.clear_site_(n)\n            psi.absorb_central_(to=to)\n            env.update_env_(n, to=to)"),
